@@ -12,7 +12,8 @@ A. PROOF about a REGENERATED model.  pregen() runs harness/extract_sites.py over
 
 B. DIFFERENTIAL EXECUTION (decides the runtime half; this is execution, not proof).  Every component, on
    representative problems of every class (string / int / tuple / frozendict keyed states, string option names,
-   library domains), for seeds {0,1,2,..}: run twice in one process, again after scrambling the global `random`,
+   library domains), for seeds {0,1,2,..}: run on a fresh object, CALL THE SAME OBJECT A SECOND TIME (planner /
+   learner / policy / semi-MDP reused: must equal the first call), run a second fresh object, again after scrambling the global `random`,
    numpy and torch generators, again after restoring them, and in fresh processes under different
    PYTHONHASHSEEDs.  Results are compared bit-for-bit (float.hex) up to ==-semantics of dict/set; the global
    generator states are snapshotted around every run.
@@ -35,7 +36,9 @@ INFO = {
         "harness/extract_sites.py: AST extractor of randomness/hash-order sites (fail closed on unclassified "
         "randomness-looking calls); its component map, its rule 'a draw on a generator-bound name is private because "
         "every binding of the global generator to a name is itself a site', and its one audited set iteration "
-        "(DoubleQLearning key union)",
+        "(DoubleQLearning key union) and one audited object-level generator (ImplicitDistribution._rng: the distribution "
+        "object IS the seeded generator, so for this component 'second call on the same object' means a freshly "
+        "constructed distribution with the same seed performing the same query sequence)",
         "model/Rng.v resolve: meaning of each site kind under a configuration (seed given / seed falsy / generator passed)",
         "differential half: canonical rendering of results (harness/impl/c13_impl.py canon: floats bit-for-bit, dict/set "
         "compared with == semantics), snapshots of random/numpy/torch global states, PYTHONHASHSEED of child processes",
@@ -56,6 +59,7 @@ Local Open Scope string_scope.
 KIND_NAMES = extract_sites.KINDS
 GEN_AXES = ("differs-between-two-runs-in-one-process", "depends-on-global-generator-state",
             "nondeterministic-under-identical-global-state", "disturbs-global-generator")
+CARRY_AXIS = "second-call-on-same-object-differs"
 HASH_AXIS = "differs-across-PYTHONHASHSEED"
 
 
@@ -209,7 +213,9 @@ def first_diff(a, b, path=""):
 
 
 def env(hs, run):
-    names = {"A": "global generators in state 1", "B": "second run, nothing re-seeded", "D": "global generators put back in state 1"}
+    names = {"A": "fresh object, global generators in state 1", "B": "second fresh object, nothing re-seeded",
+             "D": "fresh object, global generators put back in state 1",
+             "R": "SECOND CALL of plan_on/train_on/run_on/query on the SAME object that produced run A"}
     return {"PYTHONHASHSEED": hs, "run": run, "globals": names.get(run, "global generators scrambled to state %s" % run[1:])}
 
 
@@ -241,17 +247,19 @@ def analyse(ctx, cases, results, hashseeds):
             continue
         for hs in hashseeds:
             r = rs[hs]
-            runs = [("A", r["A"]), ("B", r["B"])] + [("C%d" % (k + 2), c) for k, c in enumerate(r["C"])] + [("D", r["D"])]
+            runs = [("A", r["A"]), ("B", r["B"])] + [("C%d" % (k + 2), c) for k, c in enumerate(r["C"])] + [("D", r["D"]), ("R", r["R"])]
             counters["runs"] += len(runs)
             counters["error_runs"] += sum(1 for _, x in runs if "error" in x)
             a = r["A"]
             if dig(r["D"]) != dig(a):
                 add(comp, "nondeterministic-under-identical-global-state", "", i, pair_detail(case, hs, "A", a, hs, "D", r["D"]))
             else:
-                for name, c in runs[2:-1]:
+                for name, c in runs[2:-2]:
                     if dig(c) != dig(a):
                         add(comp, "depends-on-global-generator-state", "", i, pair_detail(case, hs, "A", a, hs, name, c))
                         break
+            if dig(r["R"]) != dig(a):
+                add(comp, "second-call-on-same-object-differs", "", i, pair_detail(case, hs, "A", a, hs, "R", r["R"]))
             changed = sorted({g for _, x in runs for g in x.get("globals_changed", [])})
             if dig(r["B"]) != dig(a):
                 explained = [k for k in fails if k[0] == comp and k[1] == "depends-on-global-generator-state" and fails[k][-1][0] == i]
@@ -285,6 +293,9 @@ def report_runtime(ctx, cases, fails):
         if axis == HASH_AXIS:
             qual = "str-keys-only" if all(keyclass(c) == "str" for c in fc) else "incl-int-keys"
             exhibited.setdefault((comp, "hash"), items[0][1])
+        elif axis == CARRY_AXIS:
+            qual = "seed0-only" if all(c["seed"] == 0 for c in fc) else "any-seed"
+            exhibited.setdefault((comp, "carry"), items[0][1])
         else:
             qual = "seed0-only" if all(c["seed"] == 0 for c in fc) else "any-seed"
             exhibited.setdefault((comp, "gen"), items[0][1])
@@ -307,12 +318,13 @@ def static_half(ctx, exhibited, only=None):
     discharged = 0
     empty = []
     for c, v in zip(comps, vals):
-        if isinstance(v, vlib.CoqError) or not (isinstance(v, tuple) and len(v) == 5):
+        if isinstance(v, vlib.CoqError) or not (isinstance(v, tuple) and len(v) == 6):
             ctx.violation("C13:sites:%s:coq-evaluation-failed" % c, {"case": None, "error": str(v)[:1500]}, found=False)
             continue
-        allpriv, glob, hsh, n, off = v
+        allpriv, glob, hsh, carried, n, off = v
         off = [{"file": o[0], "line": o[1], "kind": KIND_NAMES[o[2]], "what": o[3]} for o in off]
-        table[c] = {"all_private": allpriv, "uses_global_generator": glob, "hash_order_dependence": hsh, "sites": n, "offending": off}
+        table[c] = {"all_private": allpriv, "uses_global_generator": glob, "hash_order_dependence": hsh,
+                    "generator_persists_across_calls": carried, "sites": n, "offending": off}
         if c == "other" or (only is not None and c != only):
             continue
         if n == 0:
@@ -321,11 +333,13 @@ def static_half(ctx, exhibited, only=None):
         if allpriv:
             discharged += 1
             continue
-        for flag, tag, axis in ((glob, "global-generator-used", "gen"), (hsh, "hash-order-dependence", "hash")):
+        for flag, tag, axis in ((glob, "global-generator-used", "gen"), (hsh, "hash-order-dependence", "hash"),
+                                (carried, "generator-persists-across-calls", "carry")):
             if not flag:
                 continue
             ex = exhibited.get((c, axis))
-            kinds = {"gen": ("KGlobal", "KGlobalIfSeedFalsy", "KUnseeded"), "hash": ("KHashOrder", "KHash", "KHashDerivedSeed")}[axis]
+            kinds = {"gen": ("KGlobal", "KGlobalIfSeedFalsy", "KUnseeded"), "hash": ("KHashOrder", "KHash", "KHashDerivedSeed"),
+                     "carry": ("KPersistentAcrossCalls",)}[axis]
             detail = {"case": ex["case"] if ex else None,
                       "obligation": 'forallb site_private (component_sites "%s") = true  is FALSE on the regenerated table' % c,
                       "offending_sites": [o for o in off if o["kind"] in kinds],
